@@ -132,7 +132,7 @@ def G(name, src, entry, enforce=None, replace=None, link=None, defs=None, loops=
       unwind=None, unwindset=None, flags=None, tier="quick", bounded=None, timeout=300,
       mem=12, functions=None, finding=None, replay="native", solver=None, noreach=False,
       stubs=None, object_bits=None, note=None, selftest=None, only_finding=None,
-      enforce_none=False):
+      enforce_none=False, genbody=None):
     enforce = enforce or []
     if isinstance(enforce, str):
         enforce = [enforce]
@@ -142,7 +142,8 @@ def G(name, src, entry, enforce=None, replace=None, link=None, defs=None, loops=
                  timeout=timeout, mem=mem, functions=functions or list(enforce),
                  finding=finding, replay=replay, solver=solver, noreach=noreach,
                  stubs=stubs or [], object_bits=object_bits, note=note,
-                 selftest=selftest, only_finding=only_finding, enforce_none=enforce_none)
+                 selftest=selftest, only_finding=only_finding, enforce_none=enforce_none,
+                 genbody=genbody)
 
 
 def load_checks(pid):
@@ -179,6 +180,17 @@ def build_group(g, gen, wd, extra_defs=()):
         txt = r["err"] + r["out"]
         errs = [l for l in txt.splitlines() if "error" in l.lower()]
         raise Undecided("goto-cc failed for %s: %s" % (g.name, " | ".join(errs[:4]) or txt[-1500:]))
+    if g.genbody:
+        # havoc-with-frame bodies for callees that live in other translation units:
+        # genbody = (regex of function names, options), e.g. "havoc,globals:(ErrorCount|Repass)"
+        passes = g.genbody if isinstance(g.genbody, list) else [g.genbody]
+        for k, (rx, opts) in enumerate(passes):
+            a2 = os.path.join(wd, "a_gen%d.gb" % k)
+            r = run(["goto-instrument", "--generate-function-body", rx, "--generate-function-body-options", opts, a, a2],
+                    timeout=600, mem_gb=12)
+            if r["rc"] != 0:
+                raise Undecided("goto-instrument --generate-function-body failed for %s: %s" % (g.name, (r["err"] + r["out"])[-1500:]))
+            a = a2
     cmd = ["goto-instrument", "--no-malloc-may-fail", "--dfcc", g.entry]
     for f in g.enforce:
         cmd += ["--enforce-contract", f]
